@@ -812,6 +812,20 @@ func (env *SpecEnv) callGo(e *SExpr, fn *types.Func, recv *TV, args []TV) TV {
 		t := sig.Results().At(0).Type()
 		return TV{App(fmt.Sprintf("fn.%s.r0", smtName(shortKey(funcKey(fn)))), sortOf(t), all...), t}
 	}
+	// library functions whose model at call sites is an uninterpreted application: the same application in specs
+	if fn.Pkg() != nil {
+		switch fn.Pkg().Path() + "." + fn.Name() {
+		case "strings.Split":
+			T := types.NewSlice(types.Typ[types.String])
+			return TV{App("std.strings.Split", sortOf(T), args[0].T, args[1].T), T}
+		case "strings.TrimSuffix":
+			return TV{App("std.strings.TrimSuffix", SStr, args[0].T, args[1].T), types.Typ[types.String]}
+		case "strings.TrimPrefix":
+			return TV{App("std.strings.TrimPrefix", SStr, args[0].T, args[1].T), types.Typ[types.String]}
+		case "strings.Join":
+			return TV{App("std.strings.Join", SStr, args[0].T, args[1].T), types.Typ[types.String]}
+		}
+	}
 	if fi == nil || fi.Decl == nil || fi.Decl.Body == nil {
 		env.fail(e, "Go function "+fn.FullName()+" has no body available for use in specs")
 	}
